@@ -20,6 +20,7 @@ import (
 	"sync/atomic"
 	"time"
 
+	"github.com/rs/cors"
 	"golang.org/x/oauth2"
 
 	"github.com/zitadel/oidc/v3/pkg/client"
@@ -158,6 +159,8 @@ type World struct {
 	Supplied []*Supplied
 	n        int
 	Ctx      context.Context
+	// PollInterval of the device flow: fake time inside a bubble; real time in the race run
+	PollInterval time.Duration
 	// OnHarnessStorage brackets a storage mutation performed by the harness in the
 	// role of the storage / the user (approve a device): such a write is not a
 	// library write. Set by the checker; nil in the race run.
@@ -201,14 +204,14 @@ func storeConfig() *refstore.Config {
 // Build creates the base world: fresh instances, nothing shared with an earlier world.
 func Build() *World {
 	Net.Reset()
-	w := &World{Ctx: context.Background()}
+	w := &World{Ctx: context.Background(), PollInterval: time.Millisecond}
 	w.OPCfg = rig.DefaultOPConfig()
 	eps := rig.CopyEndpoints()
 	w.LegEps = &eps
 	w.R = rig.MustNew(rig.Opts{Cfg: storeConfig(), OP: w.OPCfg, Endpoints: w.LegEps})
 	w.R.Core.NoLog = true
 	Net.Register(rig.Host, w.R.H[0])
-	w.CS = &http.Client{Transport: Net, CheckRedirect: AllowRedirects, Timeout: 20 * time.Second}
+	w.CS = &http.Client{Transport: Net, CheckRedirect: AllowRedirects} // the caller chose: own redirect policy, no timeout
 	w.supply("op.Config(P0)", "op.Config", w.OPCfg)
 	w.supply("op.Endpoints(L0)", "op.Endpoints", w.LegEps)
 	w.supply("http.Client(CS)", "http.Client", w.CS)
@@ -418,6 +421,13 @@ func buildOps() []Op {
 		prov("op.NewProvider+WithCustomEndpoints", customEntry, "op-call.example", func() []op.Option {
 			return []op.Option{op.WithCustomEndpoints(ep("custom/authorize"), ep("custom/token"), ep("custom/userinfo"), ep("custom/revoke"), ep("custom/end_session"), ep("custom/keys"))}
 		}),
+		{Name: "op.NewProvider+WithCORSOptions", Kind: "ctor-provider", Entry: "op.NewProvider+WithCORSOptions", Run: func(w *World) string {
+			co := &cors.Options{AllowedOrigins: []string{"https://app.example"}, AllowedMethods: []string{"GET"}, MaxAge: 60}
+			w.n++
+			w.supply(fmt.Sprintf("cors.Options#%d", w.n), "cors.Options", co)
+			w.newProvider("op.NewProvider+WithCORSOptions", "op-cors.example", op.WithCORSOptions(co))
+			return "ok"
+		}},
 		{Name: "op.NewLegacyServer", Kind: "ctor-provider", Entry: "op.NewLegacyServer", Run: func(w *World) string {
 			eps := rig.CopyEndpoints()
 			w.n++
@@ -506,9 +516,31 @@ func buildOps() []Op {
 			}},
 			Op{Name: rn + ".token-exchange", Kind: "call-provider", Entry: e("token(token-exchange)"), Run: func(w *World) string {
 				t := w.tokens(router)
-				r := w.R.Token(router, url.Values{"grant_type": {string(oidc.GrantTypeTokenExchange)}, "subject_token": {t.access},
-					"subject_token_type": {string(oidc.AccessTokenType)}}, rig.Basic(WebID, WebSecret))
+				r := w.R.Token(router, url.Values{"grant_type": {string(oidc.GrantTypeTokenExchange)}, "subject_token": {t.refresh},
+					"subject_token_type": {string(oidc.RefreshTokenType)}}, rig.Basic(WebID, WebSecret))
 				return class(r.Status, 200)
+			}},
+			Op{Name: rn + ".refused-requests", Kind: "call-provider", Entry: e("refused-requests"), Run: func(w *World) string {
+				// the error paths: wrong secret, unregistered redirect URI, a code redeemed twice, unknown grant, bad bearer
+				code, _ := w.R.CodeFlow(router, WebID, "u1", Scopes, nil)
+				first := w.R.ExchangeCode(router, WebID, code, nil)
+				st := []int{
+					w.R.Token(router, url.Values{"grant_type": {"client_credentials"}}, rig.Basic("svc", "wrong")).Status,
+					w.R.Do(router, rig.Req("GET", "/authorize", url.Values{"client_id": {WebID}, "redirect_uri": {"https://evil.example/cb"}, "response_type": {"code"}, "scope": {"openid"}}, nil)).Status,
+					w.R.ExchangeCode(router, WebID, code, nil).Status,
+					w.R.Token(router, url.Values{"grant_type": {"no-such-grant"}}, rig.Basic(WebID, WebSecret)).Status,
+					w.R.Do(router, rig.Req("GET", "/userinfo", nil, map[string]string{"Authorization": "Bearer nope"})).Status,
+					w.R.Token(router, url.Values{"grant_type": {"refresh_token"}, "refresh_token": {"nope"}}, rig.Basic(WebID, WebSecret)).Status,
+				}
+				if first.Status != 200 {
+					return class(first.Status, 200)
+				}
+				for i, x := range st {
+					if x < 400 {
+						return fmt.Sprintf("refused:request %d was served (%d)", i, x)
+					}
+				}
+				return "ok"
 			}},
 			Op{Name: rn + ".device-flow", Kind: "call-provider", Entry: e("device_authorization+token(device_code)"), Run: func(w *World) string {
 				return w.deviceFlow(router)
@@ -521,7 +553,7 @@ func buildOps() []Op {
 		if n == "RP0" {
 			ops = append(ops,
 				Op{Name: "rp.CodeExchange(" + n + ")", Kind: "call-client", Entry: "rp.CodeExchange", Run: func(w *World) string {
-					code, _ := w.R.CodeFlow(0, WebID, "u1", Scopes, nil)
+					code, _ := w.R.CodeFlow(0, WebID, "u1", Scopes, url.Values{"nonce": nil})
 					tk, err := rp.CodeExchange[*oidc.IDTokenClaims](w.Ctx, code, w.Inst(n).RP)
 					if err == nil && (tk.IDTokenClaims == nil || tk.IDTokenClaims.Subject != "u1") {
 						return "refused:claims"
@@ -561,7 +593,7 @@ func buildOps() []Op {
 					if err != nil {
 						return errClass(err)
 					}
-					tr, err := rp.DeviceAccessToken(w.Ctx, da.DeviceCode, time.Millisecond, w.Inst(n).RP)
+					tr, err := rp.DeviceAccessToken(w.Ctx, da.DeviceCode, w.PollInterval, w.Inst(n).RP)
 					if err == nil && tr.AccessToken == "" {
 						return "refused:no-token"
 					}
@@ -595,7 +627,7 @@ func buildOps() []Op {
 		}},
 		Op{Name: "tokenexchange.ExchangeToken(TE0)", Kind: "call-client", Entry: "tokenexchange.ExchangeToken", Run: func(w *World) string {
 			t := w.tokens(0)
-			r, err := tokenexchange.ExchangeToken(w.Ctx, w.Inst("TE0").TE, t.access, oidc.AccessTokenType, "", "", nil, nil, nil, "")
+			r, err := tokenexchange.ExchangeToken(w.Ctx, w.Inst("TE0").TE, t.refresh, oidc.RefreshTokenType, "", "", nil, nil, nil, "")
 			if err == nil && r.AccessToken == "" {
 				return "refused:no-token"
 			}
@@ -607,7 +639,11 @@ func buildOps() []Op {
 				return class(da.Status, 200)
 			}
 			// the storage owns the state and (like the example storage) hands out its own pointer
-			st, err := w.R.Storage.(op.DeviceAuthorizationStorage).GetDeviceAuthorizatonState(w.Ctx, WebID, da.Str("device_code"))
+			var st *op.DeviceAuthorizationState
+			var err error
+			w.harness(func() { // storage action: from here on the handed-out state is under the frame condition
+				st, err = w.R.Storage.(op.DeviceAuthorizationStorage).GetDeviceAuthorizatonState(w.Ctx, WebID, da.Str("device_code"))
+			})
 			if err != nil {
 				return errClass(err)
 			}
